@@ -13,7 +13,9 @@ import (
 	"ivgsa/internal/sym"
 )
 
-func init() { register("C20", ruleC20_2, ruleC20_1, ruleC20_3) }
+func init() {
+	register("C20", ruleC20_2, ruleC20_1, ruleC20_3, func(c *Ctx) { c.checkNoRetainedStorage("C20.6") })
+}
 
 // T-SVG: verb -> (operand count, Destination method, wiring) for the generator.
 type svgVerb struct {
